@@ -864,7 +864,14 @@ impl World {
         let ent = p.src;
         let count = g.put_count[ent];
         g.put_count[ent] += 1;
-        let predicted = (self.entity_value(ent), self.sc.ents[ent].seq0 + count);
+        // the counter wraps within the width of the identifiers
+        let mask = match self.sc.idw {
+            1 => 0xFFu64,
+            2 => 0xFFFF,
+            4 => 0xFFFF_FFFF,
+            _ => u64::MAX,
+        };
+        let predicted = (self.entity_value(ent), self.sc.ents[ent].seq0.wrapping_add(count) & mask);
         g.puts[put].predicted = predicted;
         g.puts[put].issued = true;
         let req = PutRequest {
@@ -1107,7 +1114,23 @@ fn start_daemon(world: &Arc<World>, i: usize) {
     let mut tmap: HashMap<Vec<EntityID>, Box<dyn PDUTransport + Send>> = HashMap::new();
     tmap.insert(peers, Box::new(transport));
     let fs = Arc::new(SimFs::new(&world.root.join(format!("jail/e{}", i)), world, i));
-    let mut daemon = Daemon::new(world.entity_id(i), make_id(sc.idw, first_seq), tmap, fs, HashMap::new(), entity_config(e), prim_rx, ind_tx);
+    // per-peer configuration (round 7): when the entity's first sequence number is odd, its configuration
+    // is registered under the id of every peer and the daemon's *default* configuration is a decoy with
+    // twice the segment size and the closure flag inverted - any lookup under the wrong key (the local
+    // id, a transaction's sequence number) then shows as a property violation (C07 segment size, C18)
+    let (per_peer, default_cfg) = if e.seq0 % 2 == 1 {
+        let mut m = HashMap::new();
+        for j in (0..nent).filter(|j| *j != i) {
+            m.insert(world.entity_id(j), entity_config(e));
+        }
+        let mut decoy = entity_config(e);
+        decoy.file_size_segment = e.seg.saturating_mul(2);
+        decoy.closure_requested = !e.closure;
+        (m, decoy)
+    } else {
+        (HashMap::new(), entity_config(e))
+    };
+    let mut daemon = Daemon::new(world.entity_id(i), make_id(sc.idw, first_seq), tmap, fs, per_peer, default_cfg, prim_rx, ind_tx);
     let w = world.clone();
     let h = tokio::spawn(async move {
         let r = daemon.manage_transactions().await;
